@@ -183,6 +183,20 @@ def main() -> int:
                 spec_failures.append(case)
     if legacy_known and "K-C09-8" in known_all:
         ck.known("K-C09-8", known_all["K-C09-8"]["what"] + " (%d statements of this run, e.g. %r)" % (len(legacy_known), legacy_known[0]["sql"][:120]))
+    # T3-render per dialect: on which dialects does the parser lay the Lemma-A fragment out exactly as Tree/Render.v does?  There
+    # c09_core_tables_agree_across_dialects applies verbatim (same specified tables under any two of them); a dialect whose
+    # trees differ is left to the differential comparison above.  Where the layout agrees the implementation must report the
+    # specified tables (checked here per dialect); ansi must agree on every statement (the theorems' anchor).
+    rp = sqltie.render_per_dialect(r, 30 if quick else 300, dialects)
+    dist["render_layout_agrees"] = {}
+    for d, rows in rp.items():
+        same = [x for x in rows if x[1]]
+        dist["render_layout_agrees"][d] = "%d/%d" % (len(same), len([x for x in rows if not x[2].startswith("ERR")]))
+        for q, ok, t, m in rows:
+            ck.count()
+            if d == "ansi" and not ok:
+                k = next((j for j in range(min(len(t), len(m))) if t[j] != m[j]), 0)
+                disagreements.append({"suite": "T3-render", "dialect": d, "sql": q, "parser_tree": t[max(0, k - 200):k + 300], "rendered_tree": m[max(0, k - 200):k + 300]})
     # the tie, per dialect, on a sample (the model must equal the extractors whatever the dialect's trees look like)
     sample = stmts[: (25 if quick else 200)]
     for d in (r.sample(dialects, 8) if quick else dialects):
